@@ -22,7 +22,7 @@ class _Capture:
         return np.zeros(arr.shape, dtype="int32", order="F")
 
 
-@contract(W, props=["C05", "C03", "C20"],
+@contract(W, props=["C05", "C03", "C20", "C06"],
           scenarios=[{"layout": "C"}, {"layout": "F"}, {"layout": "strided"}, {"layout": "C", "kind": "f4"}])
 def v_watershed_preconditions(c, layout, kind="f8"):
     import wavespectra.partition.partition as pm
